@@ -17,7 +17,7 @@ def run(ctx, res):
     # spans are byte offsets: every entry point feeds the core characters whose recorded length is their
     # UTF-8 length (C01.entry, shared rule)
     res.rules_run.append("C05.entry (every entry point starts the parser at offset 0, its adaptors record len_utf8 for every character, and the code map returned is the parser's)")
-    C01.entry_rule(ctx, res, rule="C05.entry")
+    C01.entry_rule(ctx, res, rule="C05.entry", skip_roots=("root_from_str",))  # FromStr returns no code map
 
 
 def position_writers(ctx, res):
